@@ -141,7 +141,9 @@ def _validate_record(datum, schema, named_schemas, parent_ns, raise_errors, opti
     Check that the data is a Mapping type with all schema defined fields
     validated as True.
     """
-    _, fullname = schema_name(schema, parent_ns)
+    # The schema is already parsed so its name is the full name; parent_ns is
+    # the path of the field being validated, not a namespace
+    _, fullname = schema_name(schema, "")
     return (
         isinstance(datum, Mapping)
         and not ("-type" in datum and datum["-type"] != fullname)
